@@ -45,4 +45,25 @@ def codeSlice (start stop step : Option Int) (len : Nat) : List Int :=
     let (s, e) := sliceIndices start stop st len
     pyRange s e st
 
+/-- A filter value `v` (as the code computes it, after single-node unwrapping) represents the RFC
+    `ValueType` value `o`: Nothing is an empty node list or `UNDEFINED`; a value is itself. -/
+def RepV (v : V) (o : Option J) : Prop :=
+  match o with
+  | none => v = .nodes [] ∨ v = .undef
+  | some j => v = .val j
+
+/-- the six RFC comparison operators -/
+def isCmpOp (op : CmpOp) : Bool :=
+  op == .eq || op == .ne || op == .lt || op == .le || op == .gt || op == .ge
+
+/-- `InfixExpression.evaluate`'s unwrapping of a one-element node list (non-logical operators). -/
+def unwrapSingle : V → V
+  | .nodes [n] => .val n.val
+  | v => v
+
+/-- The two evaluators look at the same document with the same regex engine, and the code's root
+    identifier is `$`. -/
+def EnvAgree (env : Env) (renv : Rfc.REnv) : Prop :=
+  env.root = renv.root ∧ env.rx = renv.rx ∧ env.rootTok = ['$']
+
 end JP.Lemmas
